@@ -37,3 +37,31 @@ def delegate(ctx, rep, tier, source_prop, source_rules, rule, text, where=None, 
         rep.ok(rule, where or source_prop, f"{cnt} shared instance(s) hold")
         rep.bulk_ok(rule, max(cnt - 1, 0))
     return n
+
+
+def delegate_fn(ctx, rep, tier, fn, source_rules, rule, text, prop="?"):
+    """Like delegate(), but runs one rule function of another module (not the module's whole chain): for clauses whose home module shares rules with the
+    caller itself, where delegate() would be circular."""
+    rep.rule(rule, text + f" (shared with {', '.join(source_rules)})")
+    cache = getattr(ctx, "_delegate_fn_cache", None)
+    if cache is None:
+        cache = ctx._delegate_fn_cache = {}
+    if fn not in cache:
+        sub = Report(prop)
+        fn(ctx, sub, tier)
+        cache[fn] = sub
+    sub = cache[fn]
+    n = 0
+    from .. import core
+    known = [e for e in core.load_known_findings().get("open", []) if e.get("property") == prop]
+    for v in sub.violations:
+        if v.rule in source_rules:
+            if any(core.finding_matches(e, v) for e in known):
+                continue                                    # a recorded finding of the home property: reported there, once
+            rep.bad(rule, v.function, v.construct, v.message, v.extra, v.line)
+            n += 1
+    if not n:
+        cnt = sum(sub.instances.get(r, 0) for r in source_rules)
+        rep.ok(rule, prop, f"{cnt} shared instance(s) hold")
+        rep.bulk_ok(rule, max(cnt - 1, 0))
+    return n
